@@ -221,7 +221,21 @@ fn worker<SubProblem: Ord + Send + fmt::Debug, Solution: Send, Score: Ord + Copy
                 let subproblem_formatted = format!("{:?}", subproblem);
                 debug!("Solving subproblem: {}", subproblem_formatted);
                 let tic = time::Instant::now();
-                let result = node_solver(subproblem);
+                let result = match std::panic::catch_unwind(std::panic::AssertUnwindSafe(|| {
+                    node_solver(subproblem)
+                })) {
+                    Ok(result) => result,
+                    Err(panic_payload) => {
+                        // The node solver failed. This worker is going to die, so it must not be counted as busy
+                        // anymore and the waiting workers must get the chance to finish; otherwise they would wait
+                        // forever. The panic is propagated to the caller via the worker's JoinHandle.
+                        let mut shared_state = bab.shared_state.lock().unwrap();
+                        shared_state.busy_threads -= 1;
+                        bab.condvar.notify_all();
+                        std::mem::drop(shared_state);
+                        std::panic::resume_unwind(panic_payload);
+                    }
+                };
                 let consumed_time = tic.elapsed();
 
                 // Reacquire shared_state lock and interpret subproblem result
